@@ -1215,7 +1215,7 @@ pub fn run(cfg: &Cfg) -> i32 {
     for n in need {
         if cov.get(&n) == 0 {
             if rep.nviol.load(Ordering::Relaxed) == 0 {
-                machinery_error(&format!("vacuous: C05 coverage cell {} was never exercised", n));
+                vacuous(&format!("vacuous: C05 coverage cell {} was never exercised", n));
             }
             // cases failed before reaching the cell: the verdict is a violation, the run is not exhaustive
             ev.cap(format!("coverage cell {} not exercised (earlier failures cut the cases short)", n));
